@@ -101,6 +101,11 @@ def corruptions(kind, X, rnd):
     yield 'no initial state', '\n'.join(l for l in lines if not l.startswith('initial'))
     if len(X.Q) > 1: yield 'two initial states', '\n'.join(('initial ' + ' '.join(sorted(X.Q)[:2])) if l.startswith('initial') else l for l in lines)
     yield 'repeated declaration', base + '\n' + next(l for l in lines if l.startswith('states'))
+    # a declaration with nothing after the keyword is legal (no accepting states); writing it twice, or empty and then non-empty, is a repetition
+    nofinal = '\n'.join('final' if l.startswith('final') else l for l in lines)
+    if kind in ('DFA', 'NFA', 'PDA') and any(l.startswith('final') for l in lines):
+        yield 'repeated empty declaration', nofinal + '\nfinal'
+        yield 'empty declaration repeated with content', nofinal + '\nfinal %s' % sorted(X.Q)[0]
     yield 'undeclared state', base.replace('states ', 'states zz ', 1).replace(' zz', '', 1) + '\n' + ('%s undeclared_state a' % X.q0 if kind in ('DFA', 'NFA') else '%s undeclared_state %s' % (X.q0, trl[0].split()[2] if trl else 'a'))
     if trl:
         yield 'incomplete transition', base + '\n' + ' '.join(trl[0].split()[:2])
